@@ -111,6 +111,19 @@ func (c *c13) apply(msg sdk.Msg, authority string, what string, partial bool, ex
 			poolsExist = true
 		}
 	}
+	if rapid.IntRange(0, 3).Draw(c.t, "rolledBackFirst") == 0 {
+		// the same message first travels in a proposal whose next message fails: x/gov executes both on a
+		// branch of the state and throws the branch away.  A rejected update leaves the previous
+		// parameters intact - whatever reads them afterwards.
+		branch, _ := c.v.Ctx.CacheContext()
+		if r := RunMsg(c.v.App, branch, msg); r.OK() {
+			c.classes["update_executed_in_a_proposal_that_was_rolled_back"] = true
+			c.note("%s executed inside a proposal that was rolled back", what)
+			if now := c.paramsJSON(); now != before {
+				c.fail("%s was executed inside a proposal that was rolled back, but the parameters read differently afterwards:\n before %v\n after  %v", what, before, now)
+			}
+		}
+	}
 	res := RunMsg(c.v.App, c.v.Ctx, msg)
 	after := c.paramsJSON()
 	c.note("%s authority=%q -> ok=%v err=%v", what, authority, res.OK(), errStr(res))
